@@ -1,9 +1,9 @@
-(* C17 — the models AFTER the proposed repair fixes/C17-rewind-truncates.diff
+(* C17 — the models of singleapp / multiapp as they are since /repo commit 09014a8
    ("SetOffset below the flushed size truncates the file / removes the chunk files that follow").
-   Only SetOffset changes; every other operation is the one of Single.v / Multi.v.
-   NOT the code that exists today: Tie/C17.v selects these models only through its switch
-   `use_fixed_models`, to be flipped in the same step as the fix commit.
-   (The repair also makes Open read preallocSize from its own metadata key, so that a reopened
+   Only SetOffset differs from Single.v / Multi.v (whose `h_setoffset` branch without truncation and
+   `m_setoffset` are the code BEFORE 09014a8); every other operation is the one defined there.
+   These are the models the correspondence run ties to the code (Tie/C17.v, `use_fixed_models`).
+   (Since 09014a8 Open also reads preallocSize from its own metadata key, so that a reopened
    preallocated file stays exempt from truncation; `pre` = the file was created preallocated.)
    This file contains definitions only. *)
 From V Require Export App.Multi.
